@@ -116,15 +116,7 @@ func c14Run(c c14Case) (v *verdict, prog *progen.Program, labels []string, descs
 	anyMatch := false
 	both := [2]bool{}
 	for i := range spec.Pkgs {
-		used := false
-		for _, f := range spec.Feats {
-			if f.Prov == i || f.User == i {
-				used = true
-			}
-		}
-		if i == 0 {
-			used = true
-		}
+		used := true // packages no feature uses are still imported (blank) by main, hence built
 		matched[i] = refMatch(pattern, spec.ImportPath(i))
 		if used && matched[i] {
 			anyMatch = true
@@ -165,6 +157,9 @@ func c14Run(c c14Case) (v *verdict, prog *progen.Program, labels []string, descs
 	box := h.NewCaseBox(dir, cfg, h.LevelStd)
 	g := box.Garble(cfg, src, "build", "-o", gbin, ".")
 	if !g.OK() {
+		if strings.Contains(g.Stderr, "cannot use struct{") || strings.Contains(g.Stderr, "cannot convert") {
+			return &verdict{Key: "C14/build-fails/anon-struct-across-boundary", Msg: fmt.Sprintf("garble build with GOGARBLE=%q fails: an anonymous (or converted) struct type is used on both sides of the GOGARBLE boundary and only one side's field names are obfuscated (features %s):\n%s", pattern, prog.FeatureSet(), g.Brief())}, prog, labels, descs
+		}
 		return &verdict{Key: "C14/build-fails/" + failureClass(g.Stderr), Msg: fmt.Sprintf("garble build with GOGARBLE=%q fails on a mixed program (features %s):\n%s", pattern, prog.FeatureSet(), g.Brief())}, prog, labels, descs
 	}
 	// (a) behaviour, apart from the position lines of obfuscated packages
@@ -184,6 +179,17 @@ func c14Run(c c14Case) (v *verdict, prog *progen.Program, labels []string, descs
 		return strings.Join(keep, "\n")
 	}
 	plainPkg := func(i int) bool { return !matched[i] }
+	notMain := func(i int) bool { return !matched[i] && i != 0 }
+	if filter(want.Stdout, plainPkg) != filter(got.Stdout, plainPkg) && filter(want.Stdout, notMain) == filter(got.Stdout, notMain) && want.Exit == got.Exit {
+		// only the position reported from inside an unselected package main differs
+		key := "C14/position-shift-main"
+		if strings.Contains(os.Getenv("VERIF_EXCLUDE"), key) {
+			stats.Excluded(key)
+			plainPkg = notMain
+		} else {
+			return &verdict{Key: key, Msg: fmt.Sprintf("GOGARBLE=%q does not select package main, yet a position reported from inside it differs from the regular build\n--- regular\n%s\n--- garbled\n%s", pattern, h.Clip(filter(want.Stdout, func(i int) bool { return i == 0 }), 600), h.Clip(filter(got.Stdout, func(i int) bool { return i == 0 }), 600))}, prog, labels, descs
+		}
+	}
 	if filter(want.Stdout, plainPkg) != filter(got.Stdout, plainPkg) || want.Exit != got.Exit {
 		return &verdict{Key: "C14/behaviour-differs", Msg: fmt.Sprintf("GOGARBLE=%q: the mixed program's output (incl. file:line positions reported from inside packages outside GOGARBLE) differs from the regular build\n--- regular\n%s\n--- garbled\n%s", pattern, h.Clip(filter(want.Stdout, plainPkg), 2000), h.Clip(got.Brief(), 2500))}, prog, labels, descs
 	}
@@ -206,6 +212,12 @@ func c14Run(c c14Case) (v *verdict, prog *progen.Program, labels []string, descs
 		needles = append(needles, spec.ImportPath(i))
 	}
 	needles = append(needles, "runtime.gopanic", "runtime.mallocgc")
+	// garble always strips the symbol table: what must STAY is judged against a stripped regular binary
+	sbin := filepath.Join(dir, "plain-stripped.bin")
+	if r := plain.Go(src, nil, "build", "-ldflags=-s -w", "-o", sbin, "."); !r.OK() {
+		rc.Abort("stripped regular build failed: %s", r.Brief())
+	}
+	inStripped := h.ScanBinary(sbin, needles)
 	inPlain, inGarbled := h.ScanBinary(pbin, needles), h.ScanBinary(gbin, needles)
 	for _, n := range prog.Names {
 		if !mustVanishKinds[n.Kind] || n.MayRemain || !inPlain[n.Name] || n.Kind == "dir" {
@@ -219,7 +231,7 @@ func c14Run(c c14Case) (v *verdict, prog *progen.Program, labels []string, descs
 		switch {
 		case matched[n.Pkg] && inGarbled[n.Name]:
 			return violationf("C14/selected-package-leaks", "GOGARBLE=%q selects package %s, but its %s %q is still in the binary", pattern, spec.ImportPath(n.Pkg), n.Kind, n.Name), prog, labels, descs
-		case !matched[n.Pkg] && !inGarbled[n.Name] && n.Kind != "file":
+		case !matched[n.Pkg] && inStripped[n.Name] && !inGarbled[n.Name] && n.Kind != "file":
 			return violationf("C14/unselected-package-obfuscated", "GOGARBLE=%q does not select package %s, but its %s %q (present in the regular binary) is gone from the garbled binary", pattern, spec.ImportPath(n.Pkg), n.Kind, n.Name), prog, labels, descs
 		}
 	}
@@ -235,7 +247,7 @@ func c14Run(c c14Case) (v *verdict, prog *progen.Program, labels []string, descs
 		switch {
 		case matched[l.Pkg] && inGarbled[l.Text]:
 			return violationf("C14/selected-package-leaks", "GOGARBLE=%q selects package %s, but its literal %q is still in the binary", pattern, spec.ImportPath(l.Pkg), h.Clip(l.Text, 50)), prog, labels, descs
-		case !matched[l.Pkg] && !inGarbled[l.Text]:
+		case !matched[l.Pkg] && inStripped[l.Text] && !inGarbled[l.Text]:
 			return violationf("C14/unselected-package-obfuscated", "GOGARBLE=%q does not select package %s, but its literal %q is gone from the binary", pattern, spec.ImportPath(l.Pkg), h.Clip(l.Text, 50)), prog, labels, descs
 		}
 	}
@@ -254,7 +266,7 @@ func c14Run(c c14Case) (v *verdict, prog *progen.Program, labels []string, descs
 		if matched[i] && inGarbled[ip] && !nestedInPlainPkg && !strings.HasPrefix(spec.ImportPath(3), ip) {
 			return violationf("C14/selected-package-leaks", "GOGARBLE=%q selects package %s, but its import path is still in the binary", pattern, ip), prog, labels, descs
 		}
-		if !matched[i] && !inGarbled[ip] {
+		if !matched[i] && inStripped[ip] && !inGarbled[ip] {
 			return violationf("C14/unselected-package-obfuscated", "GOGARBLE=%q does not select package %s, but its import path is gone from the binary", pattern, ip), prog, labels, descs
 		}
 	}
@@ -269,7 +281,13 @@ func c14Run(c c14Case) (v *verdict, prog *progen.Program, labels []string, descs
 }
 
 func TestC14(t *testing.T) {
-	kinds := append(progen.DefaultKinds(), progen.KindsNeeding("litmarkers")...)
+	var kinds []string
+	for _, k := range append(progen.DefaultKinds(), progen.KindsNeeding("litmarkers")...) {
+		if (k == "anon" || k == "conv") && strings.Contains(os.Getenv("VERIF_EXCLUDE"), "C14/build-fails/anon-struct-across-boundary") {
+			continue // listed finding: identical struct types on both sides of the boundary
+		}
+		kinds = append(kinds, k)
+	}
 	kinds = append(kinds, progen.KindsNeeding("litmarkers")...)
 	rc.Check(t, func(t *rapid.T) {
 		var c c14Case
@@ -300,7 +318,15 @@ func TestC14(t *testing.T) {
 func TestC14Replay(t *testing.T) {
 	rc.Fixed(t, func() {
 		var c c14Case
-		loadReplay(&c)
+		switch os.Getenv("VERIF_FINDING") {
+		case "":
+			loadReplay(&c)
+		case "C14/build-fails/anon-struct-across-boundary":
+			c = c14Case{Pattern: 4, Feats: []progen.Feat{{Kind: "anon", Prov: 2, User: 0, Imp: "plain", P: []int{1, 2, 3, 4}}}}
+		case "C14/position-shift-main":
+			os.Setenv("VERIF_EXCLUDE", "")
+			c = c14Case{Pattern: 0, Feats: []progen.Feat{{Kind: "struct", Prov: 1, User: 0, Imp: "plain", P: []int{1, 2, 3, 4}}}}
+		}
 		v, _, labels, descs := c14Run(c)
 		stats.Case("replay", len(descs) > 0, labels, nil)
 		if v != nil {
